@@ -53,6 +53,9 @@ ASSUMPTIONS = [
     'local name: the rendering depends on the prefixes known when the message is made',
     'decode / iter_decode / to_objects are judged per document on the generated documents with <= 5 nodes and <= 1 fault '
     'and on the corpus; on larger documents they run and their differences are counted (unjudged-large-document ...)',
+    'wide documents (a root with 100-540 leaf children, serialised just below / above one 16 KiB read of the pull parser '
+    'and at 2.5 and 4 reads) are run at lazy depth 1 only; there iter_errors / is_valid / iter_decode are also called with '
+    'path=n and judged, decoding without a path is counted',
     'to_objects() raising AssertionError whenever the document has an element at the lazy depth does not depend on the '
     'document: it is reported under one key per lazy depth; every other discrepancy names its document',
 ]
@@ -60,11 +63,11 @@ BUDGET_S = {'quick': 3000, 'thorough': 18000}
 LAZIES = (1, 2, 3)
 JUDGED = (1,)                 # the statement claims lazy depth 1; deeper depths are explored and counted
 DECODE_NODES = 5              # decode / iter_decode / to_objects are judged on documents with <= 5 nodes, <= 1 fault
-GROUP_NAME = {'v': 'validation', 'd': 'decoding', 'o': 'to_objects', 'i': 'iteration'}
+GROUP_NAME = {'v': 'validation', 'd': 'decoding', 'o': 'to_objects', 'i': 'iteration', 'p': 'decoding by path'}
 REPO = os.environ.get('VERIF_REPO', '/repo')
 VERSIONS = {'1.0': XMLSchema10, '1.1': XMLSchema11}
 MISSING = '<no data>'
-GROUP = {'iter_errors': 'v', 'is_valid': 'v', 'decode': 'd', 'iter_decode': 'd', 'to_objects': 'o', 'iter': 'i',
+GROUP = {'iter_errors_path': 'v', 'is_valid_path': 'v', 'iter_decode_path': 'p', 'iter_errors': 'v', 'is_valid': 'v', 'decode': 'd', 'iter_decode': 'd', 'to_objects': 'o', 'iter': 'i',
          'iter_tag': 'i', 'iter_depth1': 'i', 'iter_depth2': 'i', 'iter_depth3': 'i', 'iter_depth4': 'i',
          'iter_depth5': 'i', 'iterfind': 'i', 'get_namespaces': 'i', 'get_nsmap': 'i'}
 APIS = ('iter_errors', 'is_valid', 'decode', 'iter_decode', 'to_objects', 'iter', 'iter_tag', 'iter_depth1',
@@ -223,9 +226,20 @@ def call(fn):
         return ('exc', exc_text(e), 'library' if own else 'foreign')
 
 
-def schema_obs(schema, mk):
-    """Observations of the validation / decoding APIs; mk() makes a fresh resource."""
+def schema_obs(schema, mk, path=None, nsm=None):
+    """Observations of the validation / decoding APIs; mk() makes a fresh resource.  With a path the same entry
+    points are also observed on the elements selected by it (path=, namespaces=)."""
     obs = {}
+    if path:
+        obs['iter_errors_path'] = call(lambda: ('ok', [esig(e) for e in schema.iter_errors(mk(), path, namespaces=nsm)]))
+        obs['is_valid_path'] = call(lambda: ('ok', bool(schema.is_valid(mk(), path, namespaces=nsm))))
+
+        def decode_path():
+            errs, datas = [], []
+            for item in schema.iter_decode(mk(), path, namespaces=nsm):
+                (errs if isinstance(item, XMLSchemaValidationError) else datas).append(item)
+            return ('ok', canon(datas), sorted((esig(e) for e in errs), key=skey), 0)
+        obs['iter_decode_path'] = call(decode_path)
     obs['iter_errors'] = call(lambda: ('ok', [esig(e) for e in schema.iter_errors(mk())]))
     obs['is_valid'] = call(lambda: ('ok', bool(schema.is_valid(mk()))))
 
@@ -429,12 +443,27 @@ def judge(eager, lazy_obs, d):
     e, o = eager['is_valid'], lazy_obs['is_valid']
     if both_ok('is_valid', e, o) and e[1] != o[1]:
         out.append(('is_valid', 'verdict:%s' % o[1], 'is_valid() is %s on the lazy resource, %s on the loaded one' % (o[1], e[1])))
-    for api in ('decode', 'iter_decode', 'to_objects'):
+    if 'iter_errors_path' in eager:
+        e, o = eager['iter_errors_path'], lazy_obs['iter_errors_path']
+        if both_ok('iter_errors_path', e, o):
+            r = diff_errors(e[1], o[1], True)
+            if r:
+                out.append(('iter_errors_path',) + r)
+        e, o = eager['is_valid_path'], lazy_obs['is_valid_path']
+        if both_ok('is_valid_path', e, o) and e[1] != o[1]:
+            out.append(('is_valid_path', 'verdict:%s' % o[1],
+                        'is_valid(path=) is %s on the lazy resource, %s on the loaded one' % (o[1], e[1])))
+    for api in ('decode', 'iter_decode', 'to_objects', 'iter_decode_path'):
+        if api not in eager:
+            continue
         e, o = eager[api], lazy_obs[api]
         if not both_ok(api, e, o):
             continue
         if e[1] != o[1]:
-            out.append((api, 'data', 'decoded data differ: eager %s, lazy %s' % (short(e[1], 300), short(o[1], 300))))
+            what = 'decoded data differ: eager %s, lazy %s' % (short(e[1], 300), short(o[1], 300))
+            if isinstance(e[1], list) and isinstance(o[1], list) and len(e[1]) != len(o[1]):
+                what = '%d items decoded from the lazy resource, %d from the loaded one' % (len(o[1]), len(e[1]))
+            out.append((api, 'data', what))
         elif o[3]:
             out.append((api, 'data-extra:%d' % o[3], 'the chunk decoder yields %d more data items than placeholders' % o[3]))
         r = diff_errors(e[2], o[2], False)
@@ -498,7 +527,7 @@ def judge(eager, lazy_obs, d):
 
 # --- one document ---------------------------------------------------------------------------
 
-def run_document(schema, source, ident, tag, named, ref_stream=None, judge_decode=True):
+def run_document(schema, source, ident, tag, named, ref_stream=None, judge_decode=True, lazies=LAZIES, path=None):
     """-> (judged discrepancies [(key, what)], info).  ident names the input inside the key.
     Lazy depth 1 is judged; deeper depths (and, when judge_decode is false, the decoding APIs) run under the same
     oracle and their differences are counted in info['counted'].  An exception that is not one of the library's own
@@ -508,7 +537,8 @@ def run_document(schema, source, ident, tag, named, ref_stream=None, judge_decod
     def mk(lazy=False, thin=True):
         return XMLResource(source, lazy=lazy, thin_lazy=thin)
 
-    eager = schema_obs(schema, mk)
+    pnsm = path or (None, None)
+    eager = schema_obs(schema, mk, *pnsm)
     eager.update(resource_obs(mk, False, tag, named))
     eager['tag'] = tag
     info = {'eager_errors': len(eager['iter_errors'][1]) if eager['iter_errors'][0] == 'ok' else -1,
@@ -519,9 +549,9 @@ def run_document(schema, source, ident, tag, named, ref_stream=None, judge_decod
             discs.append(('C06|%s|eager|iter|reference' % ident,
                           'the loaded tree differs from the generated document: %s' % first_diff(exp, eager['stream'])))
     per, foreign = {}, {}
-    for d in LAZIES:
+    for d in lazies:
         for thin in (True, False):
-            lazy_obs = schema_obs(schema, lambda: mk(d, thin))
+            lazy_obs = schema_obs(schema, lambda: mk(d, thin), *pnsm)
             lazy_obs.update(resource_obs(lambda: mk(d, thin), d, tag, named))
             found, nn, ff = judge(eager, lazy_obs, d)
             if ref_stream is not None and lazy_obs['iter'][0] == 'ok' and Counter(lazy_obs['iter'][1]) != Counter(exp) \
@@ -533,7 +563,7 @@ def run_document(schema, source, ident, tag, named, ref_stream=None, judge_decod
             info['judged'] += len(APIS) if d in JUDGED else 0
             per[(d, thin)] = found
             foreign.setdefault(d, set()).update(ff)
-    for d in LAZIES:
+    for d in lazies:
         a = {(api, cat): what for api, cat, what in per[(d, True)]}
         b = {(api, cat): what for api, cat, what in per[(d, False)]}
         merged = {}
@@ -595,6 +625,28 @@ def run_generated(flavour, shape, faults):
     return discs, info
 
 
+def wide_schema(flavour):
+    if ('wide', flavour) not in _schemas:
+        _schemas[('wide', flavour)] = XMLSchema10(gen.WIDE_SCHEMAS[flavour])
+    return _schemas[('wide', flavour)]
+
+
+def run_wide(flavour, size, variant):
+    """A root with many leaf children whose serialisation crosses the reads of the pull parser: lazy depth 1 only,
+    the entry points also with path='n'; decoding without a path is counted, not judged."""
+    n = gen.wide_children(flavour, size)
+    text, stream = gen.render_wide(flavour, n, variant)
+    ns = flavour == 'ns'
+    named = ('p:n', {'p': 'urn:t'}) if ns else ('n', None)
+    fault = '-' if variant == '-' else '%s:%s' % (variant, gen.WIDE_FAULT[flavour])
+    ident = 'wide-%s|%s n=%d|%s' % (flavour, size, n, fault)
+    discs, info = run_document(wide_schema(flavour), text, ident, '{urn:t}n' if ns else 'n', named, stream,
+                               judge_decode=False, lazies=(1,), path=named)
+    info['stream'] = stream
+    info['chars'] = len(text)
+    return discs, info
+
+
 def corpus_schema(rec):
     key = ('corpus', rec['xml'], rec['version'])
     if key not in _schemas:
@@ -636,6 +688,9 @@ def shards(tier, seed):
                 batch, cost = [], 0
         if batch:
             out.append(('gen', flavour, seed, tuple(batch)))
+    for flavour in gen.WIDE_FLAVOURS:
+        for size in gen.WIDE_SIZES:
+            out.append(('wide', flavour, size))
     files = gen.corpus(REPO)
     for lo in range(0, len(files), 4):
         out.append(('corpus', lo, min(lo + 4, len(files))))
@@ -644,7 +699,7 @@ def shards(tier, seed):
 
 def account(acc, ident_sig, discs, info, case, stream_levels):
     lc = stream_levels
-    for d in LAZIES:
+    for d in sorted({d for d, _thin in info['per']}):
         chunks = lc.get(d, 0)
         # transitions = chunks streamed: every lazy run passes over the document once per streaming call
         # (iter_errors, is_valid, decode and iter_decode twice - root then chunk decoder -, to_objects, iter x 2,
@@ -691,6 +746,19 @@ def run_shard(shard, acc):
                 if not faults and shape.count('(') in (3, 6):
                     acc.sample({'flavour': flavour, 'shape': shape, 'faults': '-', 'eager_errors': info['eager_errors'],
                                 'discrepancies': len(discs)})
+    elif shard[0] == 'wide':
+        _kind, flavour, size = shard
+        for variant in gen.WIDE_VARIANTS:
+            case = {'kind': 'wide', 'flavour': flavour, 'size': size, 'variant': variant}
+            with acc.guard(600):
+                discs, info = run_wide(flavour, size, variant)
+            levels = Counter(x[0] for x in info['stream'])
+            acc.st(states=levels.get(1, 0) + 1)
+            acc.cnt('wide documents (%d-%d KiB)' % (info['chars'] // 16384 * 16, info['chars'] // 16384 * 16 + 16))
+            account(acc, 'wide-%s|%s|%s' % (flavour, size, variant), discs, info, case, levels)
+            if variant == '-' and size == 'x2.5':
+                acc.sample({'wide': flavour, 'size': size, 'chars': info['chars'], 'children': levels.get(1, 0),
+                            'discrepancies': len(discs)})
     else:
         _kind, lo, hi = shard
         for rec in gen.corpus(REPO)[lo:hi]:
@@ -714,6 +782,9 @@ def replay(case):
     if case['kind'] == 'gen':
         discs, _ = run_generated(case['flavour'], case['shape'], gen.parse_faults(case['faults']))
         return discs
+    if case['kind'] == 'wide':
+        discs, _ = run_wide(case['flavour'], case['size'], case['variant'])
+        return discs
     rec = {'xml': os.path.join(REPO, 'tests', 'test_cases', case['xml']), 'version': case['version'],
            'locations': case['locations']}
     discs, _ = run_corpus(rec)
@@ -724,7 +795,9 @@ def bounds(tier, seed):
     out = {'size': ['height<=%d nodes<=%d faults<=%d' % s for s in space(tier)], 'fan_out': 3,
            'judged_lazy_depths': list(JUDGED), 'decoding_apis_judged_on': 'nodes<=%d faults<=1 and the corpus' % DECODE_NODES,
            'flavours': list(gen.FLAVOURS), 'lazy': list(LAZIES), 'thin_lazy': [True, False], 'apis': list(APIS),
-           'corpus_files': len(gen.corpus(REPO))}
+           'corpus_files': len(gen.corpus(REPO)),
+           'wide_documents': 'root with N leaf children, %s x sizes %s of the 16 KiB parser read x %s; lazy=1, also with path=n'
+                             % (list(gen.WIDE_FLAVOURS), list(gen.WIDE_SIZES), list(gen.WIDE_VARIANTS))}
     res = residue(tier)
     if res:
         out['residue_slice'] = 'height<=%d nodes<=%d faults<=%d, documents with hash = %d mod %d' % (res[:3] + (seed % res[3], res[3]))
